@@ -5,7 +5,9 @@
           (metric / event / reject / PANIC) must be the implementation's, field by field.
    KDgram a sequence of whole datagrams (one batch or successive batches) through a real
           DatagramParser; compared: panic or the three counters parser.metrics_received /
-          events_received / bad_lines_seen after the last one.
+          events_received / bad_lines_seen after the last one.  The same constructor carries
+          the recv stream: the datagrams sent through real sockets (or a scripted PacketConn)
+          to a real DatagramReceiver feeding the parser, in a child process.
    KHttp  one request to the real ingestion router; compared: the status the client saw
           (None = the connection died without a status) and the number of dispatches, against
           the trace of Model/WireStatus.handle under the library outcomes the harness computed
